@@ -51,6 +51,12 @@ RULE = ("a case is a history: class (plain | external interference), seeds, "
         "view (or sends data) both before and after a set_pathloss on the "
         "same raw channel (read - mutate - read on the lazy caches); "
         "distinct = SHA-1 of the case description")
+RULE += (" Added after the white-box review: "
+         "path-loss kinds tiny (1e-14..1e-7) and nearby, re-layout "
+         "'users swapped', caller writes into its path-loss array, "
+         "refused init with a wrong user count, first data block "
+         "real-valued ")
+
 ASSUMPTIONS = [
     "changing the antenna layout or K while a path-loss matrix or post "
     "filters are set is NOT generated (not clearly inside the documented "
